@@ -77,7 +77,13 @@ class Run:
                 stderr = f'timeout after {timeout}s'
                 timed_out = True
             return _T()
-        if check and p.returncode != 0:
+        if check and p.returncode < 0:
+            # killed by a signal (segfault, abort) or by the watchdog: the engine crashed / hung while being exercised for this
+            # property - the operation did not deliver what the property promises
+            self.violation({'kind': 'driver-crash-or-hang', 'driver': module, 'args': [str(a) for a in args][:3], 'rc': p.returncode,
+                            'stderr': p.stderr[-800:]},
+                           f'{module} was killed (rc={p.returncode}) while exercising the engine: crash or non-termination')
+        elif check and p.returncode != 0:
             self.machinery(f'driver {module} failed rc={p.returncode}: {p.stderr[-2000:]}')
         return p
 
